@@ -109,12 +109,14 @@ struct Explorer<'a> {
     rcfg: Cfg,
     /// running index of depth-2 nodes: the unit of sharding
     level1: std::cell::Cell<u64>,
+    /// destination accepts at most this many bytes per write call (None: everything)
+    dest_cap: Option<usize>,
 }
 
 impl<'a> Explorer<'a> {
     /// replay `hist` on a fresh writer (all calls were accepted before), returning writer and model
     fn replay(&self, hist: &[usize]) -> (TagWriter<Dest>, WModel) {
-        let mut w = TagWriter::new(Dest::default());
+        let mut w = TagWriter::new(match self.dest_cap { Some(n) => Dest::capped(n), None => Dest::default() });
         let mut m = WModel::default();
         for i in hist {
             let c = &self.alpha[*i];
@@ -154,7 +156,7 @@ impl<'a> Explorer<'a> {
                 }
                 continue;
             }
-            let d = || format!("history [{}] then {}", hist.iter().map(|i| self.alpha[*i].short()).collect::<Vec<_>>().join(", "), c.short());
+            let d = || format!("{}history [{}] then {}", match self.dest_cap { Some(n) => format!("destination accepting {} byte(s) per write; ", n), None => String::new() }, hist.iter().map(|i| self.alpha[*i].short()).collect::<Vec<_>>().join(", "), c.short());
             if !ctx.enter(&d) {
                 // in replay modes still walk the tree so that indexes line up: decide acceptance quietly
                 let (mut w, _) = self.replay(hist);
@@ -244,13 +246,20 @@ pub fn run(ctx: &mut Ctx) {
     assert_spec_matches::<V>(&rs);
     let alpha = alphabet(!ctx.quick());
     let depth = ctx.tier.pick(8, 10);
-    ctx.meta("rule", "cases: every sequence of writer calls up to the depth bound over the call alphabet (Start of Root/M/N known-size, with explicit width, with unknown size via write_advanced and via the deprecated call; End of each; leaves with default and explicit width; Full of a one- and a two-level subtree; write_raw; flush), explored depth-first on the real TagWriter (a rejected call is not extended), destination inspected after EVERY call and into_inner() tried in EVERY reached state. Oracle: reference model of open chain + accepted tags: destination only grows by appending; while a known-size master stays open it does not grow; after an element / Full / End / flush call with no known-size master open a strict read of the destination yields exactly the accepted tags (plus the Ends end-of-input supplies for unknown-size masters still open); into_inner's output extends what was handed over and reads as all accepted tags with everything closed. Non-trivial: states with both a known- and an unknown-size master open.");
+    ctx.meta("rule", "cases: every sequence of writer calls up to the depth bound over the call alphabet (Start of Root/M/N known-size, with explicit width, with unknown size via write_advanced and via the deprecated call; End of each; leaves with default and explicit width; Full of a one- and a two-level subtree; write_raw; flush), explored depth-first on the real TagWriter (a rejected call is not extended; once over a destination that accepts every write whole and, two levels shallower, over destinations that accept 1 resp. 3 bytes per write call), destination inspected after EVERY call and into_inner() tried in EVERY reached state. Oracle: reference model of open chain + accepted tags: destination only grows by appending; while a known-size master stays open it does not grow; after an element / Full / End / flush call with no known-size master open a strict read of the destination yields exactly the accepted tags (plus the Ends end-of-input supplies for unknown-size masters still open); into_inner's output extends what was handed over and reads as all accepted tags with everything closed. Non-trivial: states with both a known- and an unknown-size master open.");
     ctx.meta("bounds", &format!("alphabet {} calls, depth {}", alpha.len(), depth));
     ctx.meta("assumptions", "global elements are not in the alphabet (a global directly after an unknown-size master's End is inherently ambiguous on read-back) || reader tolerates unknown ids for the write_raw tag");
-    for c in ["complete_states_checked", "rejected_calls_pruned"] {
+    for c in ["complete_states_checked", "rejected_calls_pruned", "short_write_destinations"] {
         ctx.expect_nonzero(c);
     }
-    let e = Explorer { alpha: &alpha, depth, rcfg: Cfg::strict().with_allow(ALLOW_IDS), level1: std::cell::Cell::new(0) };
+    let e = Explorer { alpha: &alpha, depth, rcfg: Cfg::strict().with_allow(ALLOW_IDS), level1: std::cell::Cell::new(0), dest_cap: None };
     let mut hist = Vec::new();
     e.explore(ctx, &mut hist, true);
+    // the same exploration, two levels shallower, over destinations that take 1 resp. 3 bytes per write call
+    for cap in [1usize, 3] {
+        let e = Explorer { alpha: &alpha, depth: depth.saturating_sub(2), rcfg: Cfg::strict().with_allow(ALLOW_IDS), level1: std::cell::Cell::new(0), dest_cap: Some(cap) };
+        let mut hist = Vec::new();
+        e.explore(ctx, &mut hist, true);
+        ctx.count("short_write_destinations", 1);
+    }
 }
